@@ -350,6 +350,15 @@ def run_call(w, call):
             return _run_call(w, call)
         except Exception as e:                    # noqa: BLE001 -- which exception is C17's business
             return {"raised": type(e).__name__}
+    if uses_pymoo(call):
+        # A pymoo-backed run is seeded from OS entropy (F-C08-a/b): what it returns differs from process to process and
+        # is not judged here.  Now and then it returns a decision that selects nobody, and building the cross
+        # configuration from it raises; that is an outcome of the unreproducible run (feasibility of returned
+        # solutions is C06's subject), not something this property can attribute to a call.
+        try:
+            return _run_call(w, call)
+        except Exception as e:                    # noqa: BLE001
+            return {"raised": type(e).__name__}
     return _run_call(w, call)
 
 
@@ -575,6 +584,8 @@ def label_program(ctx, program):
 def label_outcomes(ctx, program, outs):
     """outcome-side classification only (never used as a signature): how the documented-but-possibly-unsupported forms ended"""
     for c, o in zip(program, outs):
+        if uses_pymoo(c):
+            ctx.label("pymoo_backed_run_raised", was_rejected(o))
         if maybe_unsupported(c):
             ctx.label("unsupported_form_rejected:%s" % c[0], was_rejected(o))
             ctx.label("unsupported_form_accepted:%s" % c[0], not was_rejected(o))
